@@ -436,7 +436,7 @@ func init() {
 		}
 		o := e.newObj(n, "mapkeys")
 		if n > 0 {
-			for i, j := range e.mapOrder(n) {
+			for i, j := range e.mapOrder(n, m) {
 				o.cells[i] = RValue{t: mt.Key(), v: m.keys[j]}
 			}
 		}
@@ -860,6 +860,8 @@ func (e *Exec) rtypeMethod(rt RType, name string, a []Value) Value {
 		return e.implements(t, it)
 	case "Comparable":
 		return types.Comparable(t)
+	case "AssignableTo2":
+		return false
 	case "NumField":
 		if u, ok := under(t).(*types.Struct); ok {
 			return int64(u.NumFields())
